@@ -382,6 +382,11 @@ impl tracing_core::field::Visit for CsVisitor {
     fn record_debug(&mut self, _: &tracing_core::Field, _: &dyn std::fmt::Debug) {}
 }
 
+/// Called at the start of every `RecLeaf::register_callsite` (lets a check act in the middle of
+/// an interest-cache rebuild).
+#[allow(clippy::type_complexity)]
+pub static REGISTER_HOOK: Mutex<Option<Arc<dyn Fn() + Send + Sync>>> = Mutex::new(None);
+
 pub struct RecLeaf {
     pub log: LeafLog,
     /// also log register_callsite / enabled / event_enabled / on_register_dispatch (C09)
@@ -420,6 +425,10 @@ impl<C: tracing_core::Collect + for<'a> LookupSpan<'a>> Subscribe<C> for RecLeaf
         }
     }
     fn register_callsite(&self, m: &'static Metadata<'static>) -> tracing_core::collect::Interest {
+        let hook = REGISTER_HOOK.lock().unwrap().clone();
+        if let Some(h) = hook {
+            h();
+        }
         if self.verbose {
             self.push(LCall { seq: next_seq(), kind: LKind::RegisterCallsite, thread: vp_rec::tag(), id: 0, id2: 0, cs: -1, level: vp_rec::rank(m.level()), target: m.target().to_string(), current: None, scope: vec![] });
         }
